@@ -2,6 +2,7 @@
 from __future__ import annotations
 
 import itertools
+import json
 import multiprocessing as mp
 import random
 import signal
@@ -16,6 +17,9 @@ ALPHABET = [0x00, 0x01, 0x0C, 0x0D, 0x40, 0xC0, 0xFF, ord('a')]
 
 
 WALL_LIMIT_S = 8.0
+
+
+VERIF_DIR = __import__('os').path.dirname(__import__('os').path.dirname(__import__('os').path.abspath(__file__)))
 
 
 def cps(s: str) -> List[int]:
@@ -193,8 +197,36 @@ def mutate(rng: random.Random, data: bytes) -> bytes:
 
 def hostile(rng: random.Random) -> bytes:
     """Adversarial compression graphs up to the datagram limit."""
-    kind = rng.choice(['chain', 'chain', 'cycle', 'self', 'forward', 'deepchain', 'labels', 'rdata-pointer', 'manyq', 'longrd', 'longrd'])
+    kind = rng.choice(['chain', 'chain', 'cycle', 'self', 'forward', 'deepchain', 'labels', 'rdata-pointer', 'manyq', 'longrd', 'longrd',
+                       'longptr', 'longptr'])
     hdr = bytearray([0, 0, 0x84, 0, 0, 0, 0, 1, 0, 0, 0, 0])
+    if kind == 'longptr':
+        # names that are within the limit where they are spelled but end in a pointer to another name, so that what they expand
+        # to lies around / beyond 253 characters: in a question, an owner name, and the name inside rdata
+        def labels(total: int, ch: int) -> bytes:
+            out = bytearray()
+            while total > 0:
+                n = min(total - 1, rng.choice([1, 7, 20, 40, 63]))
+                if n <= 0:
+                    break
+                out += bytes([n]) + bytes([ch]) * n
+                total -= n + 1
+            return bytes(out)
+        la = rng.choice([100, 150, 204, 240, 250])                   # characters of the first name (with its dots)
+        total = rng.choice([250, 252, 253, 254, 255, 256, 300, 368, 450])
+        lb = max(2, min(250, total - la))
+        first = labels(la, 97) + b'\x00'
+        q1 = first + bytes([0, 12, 0, 1])
+        p = bytes([0xC0, 12])
+        second = labels(lb, 98) + p
+        where = rng.choice(['q', 'owner', 'rd'])
+        if where == 'q':
+            hdr2 = bytearray([0, 0, 0, 0, 0, 2, 0, 0, 0, 0, 0, 0])
+            return bytes(hdr2) + q1 + second + bytes([0, 12, 0, 1])
+        hdr2 = bytearray([0, 0, 0x84, 0, 0, 1, 0, 1, 0, 0, 0, 0])
+        if where == 'owner':
+            return bytes(hdr2) + q1 + second + bytes([0, 16, 0, 1, 0, 0, 0, 120, 0, 2, 1, 97])
+        return bytes(hdr2) + q1 + b'\x01y\x00' + bytes([0, 12, 0, 1, 0, 0, 0, 120, len(second) >> 8, len(second) & 255]) + second
     if kind in ('chain', 'deepchain'):
         # pointer i points to pointer i-1 ... down to a terminating name
         hops = rng.choice([2, 10, 126, 127, 128, 129, 500]) if kind == 'chain' else rng.choice([1000, 1500, 3000, 4400])
@@ -286,6 +318,31 @@ def hostile(rng: random.Random) -> bytes:
     return bytes(hdr) + bytes(qs)
 
 
+def soak_main() -> None:
+    """Decode every datagram given on stdin (hex, JSON list), twice over, in this one process; report those that raise."""
+    import zeroconf
+    from zeroconf._protocol.incoming import DNSIncoming
+    assert zeroconf.__file__.startswith(__import__('os').environ.get('VERIF_REPO', '/repo')), zeroconf.__file__
+    datas = [bytes.fromhex(h) for h in json.load(sys.stdin)]
+    bad = []
+    n = 0
+    signal.signal(signal.SIGALRM, lambda *_a: (_ for _ in ()).throw(TimeoutError()))
+    for rnd in range(2):
+        for k, d in enumerate(datas):
+            n += 1
+            # a second source address per round: the text of a decoder's log message may contain it
+            try:
+                signal.setitimer(signal.ITIMER_REAL, WALL_LIMIT_S)
+                inc = DNSIncoming(d, ('10.0.%d.%d' % (rnd, k % 250), 5353))
+                inc.answers()
+            except BaseException as ex:  # noqa: BLE001
+                if len(bad) < 20:
+                    bad.append({'n': n, 'hex': d.hex(), 'exc': type(ex).__name__})
+            finally:
+                signal.setitimer(signal.ITIMER_REAL, 0)
+    print(json.dumps({'n': n, 'bad': bad}))
+
+
 def run(ctx: Ctx) -> None:
     rng = random.Random(ctx.seed * 7919 + 2)
     datas: List[bytes] = []
@@ -345,8 +402,21 @@ def run(ctx: Ctx) -> None:
             what = '%s: %d-byte datagram %s... -> exc=%r valid=%s events=%d' % (clause, len(data), data[:40].hex(), c['lib']['exc'],
                                                                                 c['lib']['valid'], c['events'])
             ctx.report('%s/%s' % (clause, disc), what, {'data_hex': data.hex()})
+    # the same byte strings once more, one after the other in ONE process (twice): the decoder is used by a long-running
+    # instance, and what it remembers from earlier datagrams (logging tables, caches) must not make a later one raise
+    import subprocess
+    soak = subprocess.run([sys.executable, '-c', 'import sys, os, json\nsys.path.insert(0, os.path.join(os.environ.get("VERIF_REPO", "/repo"), "src"))\nsys.path.insert(0, %r)\n'
+                           'from props import c02\nc02.soak_main()' % VERIF_DIR],
+                          input=json.dumps([d.hex() for d in uniq]), capture_output=True, text=True, timeout=1800)
+    if soak.returncode != 0 or not soak.stdout.strip():
+        raise Machinery('soak pass failed to run: %s' % soak.stderr[-1500:])
+    sres = json.loads(soak.stdout.strip().splitlines()[-1])
+    for bad in sres['bad'][:5]:
+        ctx.report('C02_Total/%s-in-a-long-sequence' % bad['exc'], 'C02_Total: datagram %s... raised %s when decoded as number %d of a long sequence in one '
+                   'process (alone it does not)' % (bad['hex'][:60], bad['exc'], bad['n']), {'data_hex': bad['hex'], 'soak': True, 'position': bad['n']})
     cov = ctx.coverage
     cov.update({
+        'soak_pass': {'datagrams_in_one_process': sres['n'], 'raised': len(sres['bad'])},
         'evaluations': len(cases), 'distinct_nontrivial': strict_ok,
         'rule': 'every string header++body with body <= %d octets over {00,01,0C,0D,40,C0,FF,61} and counts (1,0),(0,1),(1,1) '
                 '(exhaustive); valid messages and %d mutants each (bit flips, truncation, insertion, count / length corruption, '
@@ -368,7 +438,11 @@ def run(ctx: Ctx) -> None:
 
 def replay(ctx: Ctx, path: str) -> None:
     import json
-    data = bytes.fromhex(json.load(open(path))['replay']['data_hex'])
+    rep = json.load(open(path))['replay']
+    if rep.get('soak'):
+        run(ctx)              # the datagram raises only after the history of the whole sequence: run the sequence again
+        return
+    data = bytes.fromhex(rep['data_hex'])
     c = make_case(('replay', data))
     res = tlc.run_oracle('Oracle_C02', 'Oracle_C02', [c], 'c02', env={'JAVA_TOOL_OPTIONS': '-Xss1g'})
     for v in res['verdicts']:
